@@ -224,15 +224,16 @@ func (p *Parser) statement() (Statement, error) {
 		if err := p.consume(Return); err != nil {
 			return nil, err
 		}
+		returnToken := *p.previous
 		if !p.atStatementEnd() {
 			expr, err := p.expression()
 			if err != nil {
 				return nil, err
 			}
-			return &StatementReturn{expr}, nil
+			return &StatementReturn{expr, returnToken}, nil
 		}
 		p.didEndStatement = true
-		return &StatementReturn{nil}, nil
+		return &StatementReturn{nil, returnToken}, nil
 	case If:
 		if err := p.consume(If); err != nil {
 			return nil, err
